@@ -108,6 +108,26 @@ XHashOK(e) ==
      /\ (IF <<"h32", Neg(d)>> \in DOMAIN hashes THEN OneMinus("U32_SMALL", e.h32, hashes[<<"h32", Neg(d)>>]) ELSE TRUE)
 XHashUpd(e) == LET d == XDen(e) IN (<<"h64", d>> :> e.h64) @@ (<<"h32", d>> :> e.h32) @@ hashes
 
+(* L2 (MODEL-DRIFT only): the node list and root pointer SerAlgo's walk produces for the recorded diagram (nodes in    *)
+(* post-order of first visits, low before high; a node met again contributes <<index, complement bit of that edge>>)  *)
+SP(p) == IF IsStr(p, "True") THEN <<"T", 0, 0>> ELSE IF IsStr(p, "False") THEN <<"F", 0, 0>>
+         ELSE <<"P", p.Ptr.index + 1, IF p.Ptr.compl THEN 1 ELSE 0>>
+RECURSIVE SerWalk(_, _, _, _)
+SerWalk(nd, p, out, tab) ==
+  IF p = 0 THEN [out |-> out, tab |-> tab, ptr |-> <<"T", 0, 0>>]
+  ELSE IF p = 1 THEN [out |-> out, tab |-> tab, ptr |-> <<"F", 0, 0>>]
+  ELSE IF NodeOf(p) \in DOMAIN tab THEN [out |-> out, tab |-> tab, ptr |-> <<"P", tab[NodeOf(p)], p % 2>>]
+  ELSE LET n == nd[NodeOf(p)]
+           lo == SerWalk(nd, n[3], out, tab)
+           hi == SerWalk(nd, n[4], lo.out, lo.tab)
+           o2 == Append(hi.out, <<n[2], lo.ptr, hi.ptr>>)
+       IN [out |-> o2, tab |-> (NodeOf(p) :> Len(o2)) @@ hi.tab, ptr |-> <<"P", Len(o2), p % 2>>]
+SerDrift(e) ==
+  LET m == SerWalk(e.nodes, e.root, << >>, << >>) IN
+  \/ Len(e.json.roots) # 1
+  \/ SP(e.json.roots[1]) # m.ptr
+  \/ [i \in 1 .. Len(e.json.nodes) |-> <<e.json.nodes[i].topvar, SP(e.json.nodes[i].low), SP(e.json.nodes[i].high)>>] # m.out
+
 EventOK(e) ==
   CASE e.ev = "xhash" -> XHashOK(e)
     [] e.ev = "cli_wmc" -> CliWmcOK(e)
@@ -127,6 +147,7 @@ Init == /\ l = 2 /\ nvars = 0 /\ vt = << >> /\ flat = << >> /\ compress = TRUE /
 Step == /\ l <= Len(Rec) /\ l' = l + 1
         /\ "panic" \notin DOMAIN Rec[l] /\ "inexact" \notin DOMAIN Rec[l]
         /\ EventOK(Rec[l])
+        /\ (IF Rec[l].ev = "ser_bdd" /\ SerDrift(Rec[l]) THEN PrintT(<<"DRIFT", l>>) ELSE TRUE)
         /\ hashes' = (IF Rec[l].ev = "xhash" THEN XHashUpd(Rec[l]) ELSE hashes)
         /\ UNCHANGED <<nvars, vt, flat, compress, semantic, node, nden, root, den, canon, contents>>
 Spec == Init /\ [][Step]_tvars
